@@ -955,14 +955,31 @@ def install_chunk_probe():
         return
 
     def _simplify_split_align(self, original, settings):
-        r = o_align(self, original, settings)
         cur = getattr(_state, "aligns", None)
+        inp = None
+        if cur is not None and getattr(_state, "align_io", None) is not None and len(_state.align_io) < 6:
+            try:        # what goes into the alignment (the same two pure calls the method makes itself)
+                from dateparser.utils import normalize_unicode as _nu
+                inp = (list(self._word_split(original, settings=settings)),
+                       list(self._word_split(self._simplify(_nu(original), settings=settings), settings=settings)))
+            except Exception:  # noqa
+                inp = None
+        try:
+            r = o_align(self, original, settings)
+        except Exception:
+            if inp is not None:
+                _state.align_io.append({"o": inp[0], "s": inp[1], "raised": True, "oo": [], "so": []})
+            raise
         if cur is not None:
             cur.append((list(r[0]), list(r[1])))
+            if inp is not None and (len(inp[0]) != len(inp[1]) or _PROBE.setdefault("align_n", [0]).__setitem__(0, _PROBE["align_n"][0] + 1) or _PROBE["align_n"][0] % 40 == 1):     # (equal lengths: nothing to align - a sample only)
+                _state.align_io.append({"o": inp[0], "s": inp[1], "raised": False, "oo": list(r[0]), "so": list(r[1])})
         return r
 
     def translate_search(self, search_string, settings=None):
         _state.aligns = []
+        if not hasattr(_state, "align_io"):
+            _state.align_io = None
         try:
             r = o_ts(self, search_string, settings)
         finally:
@@ -1032,6 +1049,48 @@ def project_splitby(e):
     return {"n": len(base_o), "cands": cands, "aligned": all(ranges(i, base_i) == ranges(o, base_o) for i, o in e["out"]) and len(base_i) == len(base_o)}
 
 
+def project_align(io):
+    """one _simplify_split_align call in the abstract form of spec/Align.tla: words as numbers, equal numbers = the
+    simplified word equals the normalised, lower-cased original word; 0 = the empty word"""
+    from dateparser.utils import normalize_unicode as _nu
+    ids = {"": 0}
+
+    def num(w):
+        return ids.setdefault(w, len(ids))
+    return {"o": [num(_nu(w.lower())) for w in io["o"]], "s": [num(w) for w in io["s"]], "raised": io["raised"],
+            "oo": [num(_nu(w.lower())) for w in io["oo"]], "so": [num(w) for w in io["so"]]}
+
+
+def align_small_domain(req):
+    """every pair of word lists up to req['maxlen'] words over '', a, b, c through the REAL method (its two helper calls
+    answered from a table), in the abstract form of spec/Align.tla"""
+    import itertools
+    from dateparser.languages.locale import Locale
+
+    class Stub(Locale):
+        def __init__(self):
+            pass
+    alpha = ["", "a", "b", "c"][:req.get("words", 3) + 1]
+    out = []
+    tab = {}
+    st = Stub()
+    st._word_split = lambda x, settings=None: list(tab[x])
+    st._simplify = lambda x, settings=None: "S:" + x
+    lists = [list(t) for k in range(req["maxlen"] + 1) for t in itertools.product(alpha, repeat=k)]
+    lists = lists[req.get("part", 0)::req.get("parts", 1)]
+    allb = [list(t) for k in range(req["maxlen"] + 1) for t in itertools.product(alpha, repeat=k)]
+    for o in lists:
+        for s2 in allb:
+            tab["K"], tab["S:K"] = o, s2
+            try:
+                ro, rs = st._simplify_split_align("K", None)
+                io = {"o": o, "s": s2, "raised": False, "oo": list(ro), "so": list(rs)}
+            except Exception:  # noqa
+                io = {"o": o, "s": s2, "raised": True, "oo": [], "so": []}
+            out.append(project_align(io))
+    return out
+
+
 def project_chunks(e):
     """one translate_search call in the abstract form of spec/SearchChunks.tla: per sentence, per token, the flags"""
     from dateparser.timezone_parser import word_is_tz
@@ -1072,6 +1131,7 @@ def call_search(case):
             search_dates(t_, languages=case.get("languages"), settings=decode_settings(case.get("settings")))
         except Exception:  # noqa
             pass
+    _state.align_io = [] if probe_chunks else None
     try:
         r = search_dates(case["text"], languages=case.get("languages"), settings=st, add_detected_language=bool(case.get("withlang")))
     except BaseException as e:  # noqa
@@ -1087,6 +1147,13 @@ def call_search(case):
                                      {"kind": "relbase", "rel": e_["rel"], "chosen": e_["chosen"]})
             except Exception as x:  # noqa
                 res["splits_error"] = "%s: %s" % (type(x).__name__, x)
+        res["aligns"] = []
+        for io in (getattr(_state, "align_io", None) or [])[:6]:
+            try:
+                res["aligns"].append(project_align(io))
+            except Exception as x:  # noqa
+                res["aligns_error"] = "%s: %s" % (type(x).__name__, x)
+        _state.align_io = None
         res["chunks"] = []
         for e_ in [x for x in _state.events if x.get("ev") == "tsearch"][-1:]:
             try:
